@@ -59,6 +59,19 @@ func isLRULoad(v ssa.Value, field string) bool {
 
 // entryOfElement: v == elem.Value.(*Entry) -> elem
 func entryOfElement(v ssa.Value) ssa.Value {
+	// through an accessor of the package: func entryOf(e *list.Element) *Entry
+	// { return e.Value.(*Entry) }
+	if call, isCall := v.(*ssa.Call); isCall && len(call.Common().Args) == 1 {
+		if g := call.Common().StaticCallee(); g != nil && g.Blocks != nil && len(g.Params) == 1 && g.Pkg != nil && strings.HasSuffix(g.Pkg.Pkg.Path(), "/internal/cache") {
+			rets := ssau.ReturnsOf(g)
+			if len(rets) == 1 && len(rets[0].Results) == 1 {
+				if base := entryOfElement(rets[0].Results[0]); base != nil && base == ssa.Value(g.Params[0]) {
+					return call.Common().Args[0]
+				}
+			}
+		}
+		return nil
+	}
 	ta, ok := v.(*ssa.TypeAssert)
 	if !ok || ssau.NamedOf(ta.AssertedType) != entryType {
 		return nil
